@@ -1,4 +1,5 @@
 import EaModel.Properties.SchedCommon
+import EaModel.Lemmas.Wake
 /-!
 # C01 — due jobs are executed on time and never early
 
@@ -27,8 +28,120 @@ theorem never_early (env : Env) (now : Int) (en : Bool) (ops : List Op) (j : Nat
     (h : Ev.exec j t due ∈ (runOps (initSt env now en) ops).log) : due ≤ t :=
   (inv_reachable env now en ops).log _ h
 
+/-- the recursion budget of the model (`OPFUEL` nested wake-ups inside one operation, Python's recursion limit
+in the code) ran out somewhere in the history; the theorems below say nothing about such histories -/
+def Exhausted (s : St) : Prop := Ev.fatal .recursion ∈ s.log
+
+theorem exhausted_of_hasFatal {s : St} (h : HasFatal s) : Exhausted s := by
+  obtain ⟨e, he, hf⟩ := h
+  cases e with
+  | fatal x => cases x <;> first | exact he | cases hf
+  | _ => cases hf
+
+theorem good_reachable (env : Env) (now : Int) (en : Bool) (ops : List Op) :
+    Good (runOps (initSt env now en) ops) := by
+  suffices h : ∀ s, Inv s → Good s → Good (runOps s ops) from
+    h _ (inv_init env now en) (Or.inr (by simp [TimerOK, initSt]))
+  induction ops with
+  | nil => intro s _ hg; exact hg
+  | cons op ops ih => intro s hi hg; exact ih _ (step_inv s op hi) (step_good s op hi hg)
+
+/-- On time, part 1 — the wake-up is requested for the right instant: in every reachable state the loop timer
+(`call_at`) is armed exactly when the scheduler is enabled and a job is queued, and then for the run time the
+head of the queue (the job with the earliest run time, `queue_invariant`) reports. -/
+theorem timer_armed_for_head (env : Env) (now : Int) (en : Bool) (ops : List Op) :
+    let s := runOps (initSt env now en) ops
+    Exhausted s ∨
+    match s.queue with
+    | [] => s.timer = none
+    | h :: _ => if s.enabled then s.timer = s.nr h ∧ s.nr h ≠ none else s.timer = none := by
+  intro s
+  exact (good_reachable env now en ops).elim (fun h => Or.inl (exhausted_of_hasFatal h)) Or.inr
+
+/-- On time, part 2 — nothing is left behind by a wake-up: after the loop ran its ready callbacks (`yield`) or
+slept (`sleep d`), no queued job of an enabled scheduler is due: every one of them has a run time strictly after
+the current instant. Together with `never_early`, `timer_armed_for_head` and the fact that a job leaves the
+queue of the loop only by being executed, a job that is due is executed in the wake-up in which it became due. -/
+theorem nothing_due_after_wakeup (env : Env) (now : Int) (en : Bool) (ops : List Op) (op : Op)
+    (hop : op = .yield ∨ ∃ d, op = .sleep d) :
+    let s := runOps (initSt env now en) (ops ++ [op])
+    Exhausted s ∨ s.enabled = false ∨ ∀ i ∈ s.queue, ∃ t, s.nr i = some t ∧ s.now < t := by
+  intro s
+  have hs : s = (step (runOps (initSt env now en) ops) op).1 := by
+    show runOps _ (ops ++ [op]) = _
+    unfold runOps; rw [List.foldl_append]; rfl
+  have hi0 := inv_reachable env now en ops
+  have hg0 := good_reachable env now en ops
+  have hi : Inv s := inv_reachable env now en (ops ++ [op])
+  have hgf : GoodF s := by
+    rw [hs]
+    rcases hop with rfl | ⟨d, rfl⟩
+    · exact fireDue_goodF hi0 hg0
+    · exact sleepLoop_goodF _ _ hi0 hg0
+  rcases hgf with hf | ⟨hk, hfr⟩
+  · exact Or.inl (exhausted_of_hasFatal hf)
+  · cases hen : s.enabled with
+    | false => exact Or.inr (Or.inl rfl)
+    | true => exact Or.inr (Or.inr (queued_after_timer hi hk hfr hen))
+
+/-- On time, part 3 — a wake-up executes everything that is due, now: in every reachable state of an enabled
+scheduler, when the loop gets to run its ready callbacks (`yield`), every queued job whose reported run time `t`
+has been reached is executed in that wake-up — an `exec i now t` entry is appended to the log by this very
+operation — whatever else is queued and whatever the executed jobs, their callbacks and their triggers do
+(fail, finish, reschedule, re-arm the timer recursively). -/
+theorem due_jobs_executed_in_wakeup (env : Env) (now : Int) (en : Bool) (ops : List Op) (i : Nat) (t : Int) :
+    let s := runOps (initSt env now en) ops
+    s.enabled = true → i ∈ s.queue → s.nr i = some t → t ≤ s.now →
+    let s' := (step s .yield).1
+    Exhausted s' ∨ ∃ l, s'.log = l ++ s.log ∧ Ev.exec i s.now t ∈ l := by
+  intro s hen hm ht hdue s'
+  have hi : Inv s := inv_reachable env now en ops
+  have hg : Good s := good_reachable env now en ops
+  show Exhausted (fireDue s) ∨ ∃ l, (fireDue s).log = l ++ s.log ∧ Ev.exec i s.now t ∈ l
+  rcases hg with hf | hk
+  · left
+    apply exhausted_of_hasFatal
+    unfold fireDue
+    split
+    · split
+      · exact HasFatal_mono hf (runJobs_clock OPFUEL hi).log
+      · exact hf
+    · exact hf
+  · obtain ⟨th, hth, hle⟩ := timer_le_queued hi hk hen hm ht
+    have : fireDue s = runJobs OPFUEL s := by
+      unfold fireDue
+      rw [hth]
+      simp only []
+      rw [if_pos (by omega : th ≤ s.now)]
+    rw [this]
+    exact (runJobs_executes_due OPFUEL hi (Or.inr hk) hth hm ht hdue).elim
+      (fun h => Or.inl (exhausted_of_hasFatal h)) Or.inr
+
+/-- On time, part 4 — without further delay: while the loop sleeps under the virtual clock (the clock jumps from
+timer to timer), every queued job of an enabled scheduler whose run time `t` lies within the sleep is executed
+at the instant `t` itself (at once if `t` was already reached), by this sleep. -/
+theorem due_jobs_executed_at_their_time (env : Env) (now : Int) (en : Bool) (ops : List Op) (i : Nat) (t d : Int) :
+    let s := runOps (initSt env now en) ops
+    s.enabled = true → i ∈ s.queue → s.nr i = some t → t ≤ s.now + d →
+    let s' := (step s (.sleep d)).1
+    Exhausted s' ∨ ∃ l, s'.log = l ++ s.log ∧ Ev.exec i (if t > s.now then t else s.now) t ∈ l := by
+  intro s hen hm ht hle s'
+  have hi : Inv s := inv_reachable env now en ops
+  have hg : Good s := good_reachable env now en ops
+  exact (sleepLoop_executes SLEEPFUEL (s.now + d) hi hg hen hm ht hle).elim
+    (fun h => Or.inl (exhausted_of_hasFatal h)) Or.inr
+
 -- non-vacuity (executable check of the model, not a theorem): a history in which a job is executed
 #guard ((runOps (initSt {} 0) [.create 1 none (.once 5) [] [], .sleep 10]).log.any
   fun e => match e with | .exec 1 5 5 => true | _ => false)
+
+-- non-vacuity: a reachable state with an armed timer, and a wake-up that leaves a later job queued
+#guard (runOps (initSt {} 0) [.create 1 none (.once 5) [] [], .create 2 none (.once 3) [] []]).timer == some 3
+#guard (runOps (initSt {} 0) [.create 1 none (.once 5) [] [], .create 2 none (.once 3) [] [], .sleep 4]).queue == [1]
+#guard !((runOps (initSt {} 0) [.create 1 none (.once 5) [] [], .create 2 none (.once 3) [] [], .sleep 4]).log.any
+  fun e => match e with | .fatal _ => true | _ => false)
+
+#guard ((step (runOps (initSt {} 0) [.create 1 none (.once 5) [] [], .create 2 none (.once 3) [] [], .advance 7]) .yield).1.log.take 2
+  |>.all fun e => match e with | .exec _ 7 _ => true | _ => false)
 
 end Ea.C01
